@@ -47,7 +47,7 @@ ASSUME = ["scipy.stats.chi2.isf and numpy.linalg.solve/svd are trusted (shared n
           "at_bound only: the bound is bitwise chi2.isf(alpha, dof) as written in oneSidedChiSquareTest (a '<=' comparison is "
           "indistinguishable from a one-ulp larger bound otherwise)",
           "metric budget = 300 * eps * cond2(S) * |r| * |S^-1 r| + 128 eps q per step (explicit-inverse error model; calibration on 1.6e6 "
-          "steps of the current tree: worst error 0.72 * eps*cond*|r|*|S^-1 r| for cond > 100 and 4 eps q at cond 1; largest fraction of the budget used on 2.5e6 steps: 0.01), "
+          "steps of the current tree: worst error 0.72 * eps*cond*|r|*|S^-1 r| for cond > 100 and 4 eps q at cond 1; largest fraction of the budget used on the 1.7e6 steps of a thorough run: below 0.01, i.e. more than 100x head-room), "
           "summed with the window / fading weights; decision band = 1e-9*bound + budget"]
 SHARDS = {"quick": 4, "thorough": 16}
 BUDGET_S = {"quick": 60, "thorough": 540}
